@@ -95,6 +95,15 @@ type Stream struct {
 	// being received, across the HEADERS frame and its CONTINUATIONs.
 	blockFields int
 
+	// blockOpen is set while a header block of this stream has not reached its
+	// END_HEADERS. A stream that is given up in that state leaves the rest of
+	// the block to be decoded by the connection.
+	blockOpen bool
+
+	// resetSent is set once this side has sent RST_STREAM on the stream. The
+	// peer may have frames on the way that it sent before it knew.
+	resetSent bool
+
 	// headerListSize is the running RFC 7540 6.5.2 size of the header block
 	// being decoded, summed across the HEADERS frame and its CONTINUATIONs.
 	headerListSize int
@@ -146,6 +155,8 @@ func NewStream(id uint32, win int32) *Stream {
 	strm.origType = 0
 	strm.headerListSize = 0
 	strm.blockFields = 0
+	strm.blockOpen = false
+	strm.resetSent = false
 
 	return strm
 }
